@@ -4,7 +4,7 @@ use crate::common::*;
 #[allow(unused_imports)]
 use cteepbd::*;
 
-pub fn units(tier: &str, _seed: u64) -> Vec<String> {
+pub fn units(tier: &str, seed: u64) -> Vec<String> {
     let shapes: &[&str] = &[
         "U:CAL:ELECTRICIDAD;P:EL_INSITU",
         "U:ILU:ELECTRICIDAD;P:EL_INSITU;U:NEPB:ELECTRICIDAD",
@@ -18,13 +18,24 @@ pub fn units(tier: &str, _seed: u64) -> Vec<String> {
         "1/U:CAL:GASNATURAL;1/X",
         "1/U:CAL:GASNATURAL;1/U:ACS:GASNATURAL;1/X;1/O:CAL;1/O:ACS",
         "U:CAL:RED1;U:ACS:BIOMASA",
+        // non-EPB use of ambient / solar energy without any non-EPB electricity; cogeneration listed before PV
+        "U:ACS:EAMBIENTE;U:NEPB:EAMBIENTE",
+        "U:ACS:TERMOSOLAR;P:TERMOSOLAR;U:NEPB:TERMOSOLAR;P:EL_INSITU;U:CAL:ELECTRICIDAD",
+        "P:EL_COGEN;U:COGEN:GASNATURAL;P:EL_INSITU;U:CAL:ELECTRICIDAD",
+        "1/P:EL_COGEN;1/U:COGEN:GASNATURAL;2/P:EL_INSITU;U:CAL:ELECTRICIDAD;U:NEPB:GASNATURAL",
+        // auxiliaries of a system whose only consumption is the cogeneration input
+        "1/U:COGEN:GASNATURAL;1/P:EL_COGEN;1/X;2/P:EL_INSITU;U:CAL:ELECTRICIDAD",
     ];
+    let extra = catalogue(seed, if tier == "thorough" { 30 } else { 4 }, &[]);
     let mut v = vec![];
     for s in shapes {
         v.push(unit(&[("shape", s), ("n", "1"), ("fs", "PEN"), ("k", "sym")]));
     }
     for s in &shapes[..3] {
         v.push(unit(&[("shape", s), ("n", "1"), ("fs", "SYM"), ("k", "sym")]));
+    }
+    for s in &extra {
+        v.push(unit(&[("shape", s), ("n", "1"), ("fs", "PEN"), ("k", "0")]));
     }
     if tier == "thorough" {
         for s in shapes {
